@@ -67,6 +67,9 @@ func NewUniverse() *Universe {
 		"(forall ((s Str) (i Int)) (! (and (<= 0 (s.at s i)) (<= (s.at s i) 255)) :pattern ((s.at s i))))",
 		"(forall ((a Str) (b Str)) (! (= (s.len (s.cat a b)) (+ (s.len a) (s.len b))) :pattern ((s.cat a b))))",
 		"(forall ((a Str)) (! (= (s.cat a s.empty) a) :pattern ((s.cat a s.empty))))",
+		"(forall ((s Str) (lo Int) (hi Int)) (! (=> (and (<= 0 lo) (<= lo hi) (<= hi (s.len s))) (= (s.len (s.sub s lo hi)) (- hi lo))) :pattern ((s.sub s lo hi))))",
+		"(forall ((s Str) (lo Int) (hi Int) (i Int)) (! (=> (and (<= 0 lo) (<= 0 i) (< i (- hi lo)) (<= hi (s.len s))) (= (s.at (s.sub s lo hi) i) (s.at s (+ lo i)))) :pattern ((s.at (s.sub s lo hi) i))))",
+		"(forall ((s Str)) (! (= (s.sub s 0 (s.len s)) s) :pattern ((s.sub s 0 (s.len s)))))",
 		"(forall ((a Str) (b Str) (i Int)) (! (= (s.at (s.cat a b) i) (ite (< i (s.len a)) (s.at a i) (s.at b (- i (s.len a))))) :pattern ((s.at (s.cat a b) i))))",
 		"(forall ((a Str)) (! (= (s.cat s.empty a) a) :pattern ((s.cat s.empty a))))",
 	)
